@@ -101,6 +101,17 @@ CLAIMED = {
         "the Adjoint rule for non-conjugate-symmetric user f is a listed known finding.",
    technique="contract-stubbed proxy execution; primary-matrix-function lemmas; z3/cvc5",
    engine="ALG"),
+ "C05": dict(
+   category="proof",
+   text="Soundness of annotation inference: every rule of get_annotations (Kronecker, Product incl. the X^T X / X^H X patterns and scalar factors, "
+        "Sum, BlockDiag, Transpose, Adjoint, Identity, Permutation) is run as real code over parts carrying every combination of true "
+        "declarations, and every reported annotation must be provable of the represented matrix (herm/psd/unit/stief predicates with closure lemmas); "
+        "every declaration a library rule makes about its own result (inv under Unitary, ...) must be provable at the point it is made.",
+   design_ref="4.5",
+   note="User declarations are assumed true (the property's proviso); Sliced and Hessian inference and the Krylov routines' labels are outside the ALG "
+        "pass (C14/C10/C16 sections); WrapMeta.__call__ is used through its contract; three inference defects are listed known findings.",
+   technique="contract-stubbed proxy execution of get_annotations rules over annotated abstract parts; predicate closure lemmas; z3/cvc5",
+   engine="ALG"),
 }
 
 NOT_YET = "check not built yet in this session (framework under construction; see DESIGN.md section 10 for the order of work)"
